@@ -46,8 +46,15 @@ def observe_all(s, r, c):
     return ops
 
 
+def item_word(rng, p_nth=0.2):
+    """a command that yields an item: next, next_back, or (with probability p_nth) nth(k) / nth_back(k) for a small k"""
+    if rng.random() < p_nth:
+        return rng.choice([10, 100]) + rng.choice([0, 0, 1, 1, 2, 3])
+    return rng.choice([0, 1])
+
+
 def rand_script(rng, n):
-    return [rng.choice([0, 0, 1, 1, 2]) for _ in range(n)]
+    return [rng.choice([0, 0, 1, 1, 2, item_word(rng, 1.0)]) for _ in range(n)]
 
 
 def rand_nested_script(rng, n, max_inner):
@@ -68,13 +75,15 @@ def safe_nested_script(rng, n, nvec):
     out, produced, remaining = [], 0, nvec
     for _ in range(n):
         if produced == 0 or rng.random() < 0.3:
-            w = rng.choice([0, 1, 2, 0])
+            w = rng.choice([0, 1, 2, 0, item_word(rng, 0.5)])
             out += [-1, w]
-            if w != 2 and remaining > 0:
-                produced += 1
-                remaining -= 1
+            if w != 2:
+                skip = (w - 10 if w < 100 else w - 100) if w >= 10 else 0
+                if remaining > skip:
+                    produced += 1
+                remaining = max(0, remaining - skip - 1)
         else:
-            out += [rng.randrange(produced), rng.choice([0, 0, 1, 1, 2])]
+            out += [rng.randrange(produced), rng.choice([0, 0, 1, 1, 2, item_word(rng, 1.0)])]
     return out
 
 
@@ -459,6 +468,22 @@ def gen_C13(rng, tier, changed):
                 ops += [op('get', 0, 3, i, j), op('index', 0, 3, i, j), op('get_unchecked_w', 0, i, j),
                         op('set', 0, 3, i, j, 5), op('set_index_mut', 0, 3, i, j, 5)]
             cases.append(Case(f'C13-e{r}x{c}o{order}', ops, rng.choice(['tr', 'unit'])))
+    # AxisIndex::from_wrapping_index itself on extents up to usize::MAX (matrices of zero-sized elements have them; the
+    # public API cannot tell their elements apart, the hook returns the position): every extreme isize against every
+    # extreme extent, against exact integer arithmetic and the model (gap found with seeded change C13d)
+    exts = [1, 2, 3, 7, 2**31, 2**32 + 1, IMAX - 1, IMAX, IMAX + 1, IMAX + 2, IMAX + 6, 2**63 + 2**62, UMAX - 1, UMAX]
+    idxs = ext + [2, -2, 5, -7, IMAX // 2, ISIZE_MIN // 2, -(2**32), 2**32 + 3]
+    kk = 0
+    pairs = [(i, e) for i in idxs for e in exts]
+    if tier == 'quick':
+        pairs = [p for p in pairs if p[1] > IMAX or rng.random() < 0.35]
+    for (i, e) in pairs:
+        j, e2 = rng.choice(idxs), rng.choice(exts)
+        for o in (0, 1):
+            for (row, col, mj, mn) in ((i, j, e, e2), (j, i, e2, e)):
+                (a, b) = (row, col) if o == 0 else (col, row)
+                cases.append(KCase(f'C13-k{kk}', 'from_wrapping', [row, col, o, mj, mn], meta=dict(want=f'[{a % mj},{b % mn}]')))
+                kk += 1
     return cases
 
 
@@ -519,6 +544,11 @@ def gen_C04(rng, tier, changed):
                 ops.append(op('get', 0, 4, 0, 0, rows=[[r - 1, r + 5], [c - 1, c + 5]]))
                 ops.append(op('set', 0, 4, 0, 0, 4242, rows=[[r - 1, r * c + 7], [c - 1, r * c + 7]]))
             cases.append(Case(f'C04-{r}x{c}o{order}', ops, rng.choice(['tr', 'tr', 'w24'])))
+            # the same accesses on zero-sized (and, thorough, 1-byte / drop-free) elements: bounds are decided by the shape,
+            # not by the buffer (gap found with seeded change C04d)
+            cases.append(Case(f'C04-{r}x{c}o{order}z', ops, rng.choice(['unit', 'zd'])))
+            if tier != 'quick':
+                cases.append(Case(f'C04-{r}x{c}o{order}b', ops, rng.choice(['b1', 'pn'])))
     return cases
 
 
@@ -572,6 +602,19 @@ def gen_C09(rng, tier, changed):
             sh.apply(ops[-1])
             r, c = sh.s[0][0], sh.s[0][1]
         cases.append(Case(f'C09-r{i}', ops, 'tr'))
+    # reshape on matrices of zero-sized elements with up to usize::MAX elements: only shapes of exactly the same size succeed,
+    # shapes whose product overflows or saturates never do (gap found with seeded change C09e)
+    kk = 0
+    big = [UMAX, UMAX - 1, IMAX + 1, 2**32, 2**32 + 1, 2**63 + 3]
+    for (r0, c0) in [(1, UMAX), (UMAX, 1), (1, UMAX - 1), (3, UMAX // 3), (2**32 - 1, 2**32 + 1), (IMAX + 1, 1), (1, 2**63 + 3)]:
+        n0 = r0 * c0
+        targets = [(r0, c0), (c0, r0), (1, n0), (n0, 1), (UMAX, 2), (2, UMAX), (2**32, 2**32), (UMAX, UMAX), (2**33, 2**31), (0, 0), (n0, 0), (0, n0),
+                   (n0 - 1, 1), (IMAX + 1, 2), (3, n0 // 3), (n0 // 3, 3)] + [(a, b) for a in big for b in (1, 2, 3)]
+        for (r, c) in targets:
+            for o in (0, 1):
+                want = f'Some([{r},{c},{n0}])' if r * c == n0 else 'Err(SizeMismatch)'
+                cases.append(KCase(f'C09-k{kk}', 'reshape', [0, r0, c0, o, r, c], meta=dict(want=want)))
+                kk += 1
     return cases
 
 
@@ -998,6 +1041,17 @@ def obs_of(line):
     return line.split(' ;; ')[0]
 
 
+def deque_nth(items, w):
+    """nth(k) (w = 10 + k) / nth_back(k) (w = 100 + k) on a list: ([item] or [], remaining items)"""
+    if w < 100:
+        k = w - 10
+        rest = items[k:]
+        return (rest[:1], rest[1:])
+    k = w - 100
+    rest = items[:max(0, len(items) - k)]
+    return (rest[-1:], rest[:-1])
+
+
 def sim_deque(items, script, show=lambda x: x):
     """expected observation of a next/next_back/len script on a sequence"""
     items = list(items)
@@ -1007,6 +1061,9 @@ def sim_deque(items, script, show=lambda x: x):
             out.append(f'Some({show(items.pop(0))})' if items else 'None')
         elif w == 1:
             out.append(f'Some({show(items.pop())})' if items else 'None')
+        elif w >= 10:
+            x, items = deque_nth(items, w)
+            out.append(f'Some({show(x[0])})' if x else 'None')
         else:
             out.append(str(len(items)))
     return '[' + ','.join(out) + ']'
@@ -1020,23 +1077,22 @@ def sim_nested(vectors, script):
         if who < 0:
             if what == 2:
                 out.append(str(len(outer)))
-            elif outer:
-                v = outer.pop(0) if what == 0 else outer.pop()
+                continue
+            x, outer = deque_nth(outer, {0: 10, 1: 100}.get(what, what))
+            if x:
                 out.append(f'Some({len(inners)})')
-                inners.append(list(v))
+                inners.append(list(x[0]))
             else:
                 out.append('None')
         else:
             if who >= len(inners):
                 out.append('INVALID')
                 break
-            v = inners[who]
             if what == 2:
-                out.append(str(len(v)))
-            elif v:
-                out.append(f'Some({v.pop(0) if what == 0 else v.pop()})')
-            else:
-                out.append('None')
+                out.append(str(len(inners[who])))
+                continue
+            x, inners[who] = deque_nth(inners[who], {0: 10, 1: 100}.get(what, what))
+            out.append(f'Some({x[0]})' if x else 'None')
     return '[' + ','.join(out) + ']'
 
 
@@ -1361,7 +1417,8 @@ def gen_C16(rng, tier, changed):
     k = 0
     for n in sizes:
         for t in (threads if tier != 'quick' else rng.sample(threads, 3)):
-            for delay in ((0, 1, 2, 3) if tier != 'quick' else (rng.randrange(4),)):
+            # delay + 16: the parallel iterators are built under the ambient pool and driven inside the case's pool
+            for delay in ((0, 1, 2, 3, 16, 18) if tier != 'quick' else (rng.randrange(4), 16 + rng.randrange(4))):
                 order = rng.randrange(2)
                 sh = Shadow()
                 if n <= 16:
@@ -1423,6 +1480,9 @@ def gen_C19(rng, tier, changed):
                 for kind in (0, 1, 2):
                     ops.append(op('try_from', kind, kind, rows=rows))
                 ops.append(op('from_iter', 3, rows=rows))
+                # the same rows as iterators with untruthful / absent size hints: the hint of the first row for every row, 0, none
+                for h in sorted({lens[0] if lens else 0, nc, 0, -1}):
+                    ops.append(op('from_iter_hint', 3, h, rows=rows))
                 if var is None and nc <= 4:
                     for kind in (0, 1, 2):
                         ops.append(op('from_arrays', kind, kind, nc, rows=rows))
@@ -1434,7 +1494,8 @@ def gen_C19(rng, tier, changed):
     for rows_l in ([2, 1, 3], [3, 1, 2, 2], [1, 2], [2, 2, 1, 3], [0, 1], [1, 0], [2, 3, 1], [1, 1, 0, 2]):
         sh = Shadow()
         rows = [sh.fresh_vals(l) for l in rows_l]
-        ops = [op('try_from', 0, 1, rows=rows), op('try_from', 1, 2, rows=rows), op('try_from', 2, 0, rows=rows), op('from_iter', 3, rows=rows)]
+        ops = [op('try_from', 0, 1, rows=rows), op('try_from', 1, 2, rows=rows), op('try_from', 2, 0, rows=rows), op('from_iter', 3, rows=rows),
+               op('from_iter_hint', 3, rows_l[0], rows=rows), op('from_iter_hint', 3, -1, rows=rows)]
         cases.append(Case(f'C19-co{k}', ops, 'tr'))
         k += 1
     for r in range(0, 4):
@@ -1461,7 +1522,7 @@ def oracle_C19(case, hlines):
         name, a_, rows = o[1], o[2], o[3]
         obs = obs_of(line)
         want_rows, want_obs = None, '()'
-        if name in ('try_from', 'from_iter', 'from_arrays'):
+        if name in ('try_from', 'from_iter', 'from_arrays', 'from_iter_hint'):
             nc = len(rows[0]) if rows else 0
             if name == 'from_arrays':
                 nc = a_[2]
@@ -1470,7 +1531,7 @@ def oracle_C19(case, hlines):
                 want_obs = 'Err(LengthInconsistent)' if name == 'try_from' else 'Panic(LengthInconsistent)'
             else:
                 want_rows = [[f'a{v}' for v in r] for r in rows]
-                if name == 'from_iter' and not rows:
+                if name in ('from_iter', 'from_iter_hint') and not rows:
                     nc = 0
                 want_shape = (len(rows), nc)
         elif name == 'with_value':
@@ -1807,21 +1868,25 @@ SUITES.update({
 
 # =============================================================================================
 # C03: mutable row/column iterators, every interleaving of next / next_back / len
-def all_nested_scripts(nvec, length):
-    """every command sequence of the given length over the outer iterator and the inner iterators produced so far"""
+def all_nested_scripts(nvec, length, words=(0, 1, 2, 11, 101)):
+    """every command sequence of the given length over the outer iterator and the inner iterators produced so far
+    (next, next_back, len, nth(1), nth_back(1) by default)"""
     out = []
 
     def rec(prefix, produced, remaining, k):
         if k == 0:
             out.append(prefix)
             return
-        for w in (0, 1, 2):
+        for w in words:
             np, nr = produced, remaining
-            if w != 2 and remaining > 0:
-                np, nr = produced + 1, remaining - 1
+            if w != 2:
+                skip = (w - 10 if w < 100 else w - 100) if w >= 10 else 0
+                if remaining > skip:
+                    np = produced + 1
+                nr = max(0, remaining - skip - 1)
             rec(prefix + [-1, w], np, nr, k - 1)
         for i in range(produced):
-            for w in (0, 1, 2):
+            for w in words:
                 rec(prefix + [i, w], produced, remaining, k - 1)
     rec([], 0, nvec, length)
     return out
@@ -1855,7 +1920,7 @@ def gen_C03(rng, tier, changed):
             for nm, nvec in (('iter_rows_mut', r), ('iter_cols_mut', c)):
                 sh = Shadow()
                 ops = build(sh, 0, r, c, order, how='rowreshape')
-                for scr in all_nested_scripts(nvec, L):
+                for scr in all_nested_scripts(nvec, L, (0, 1, 2)) + all_nested_scripts(nvec, L - 1):
                     ops.append(op(nm, 0, 0, rows=[scr]))
                 cases.append(Case(f'C03-x{r}x{c}o{order}{nm[5]}', ops, ('w24' if order else 'tr') if nm[5] == 'r' else ('b1' if order else 'tr')))
     # zero-sized elements, up to usize::MAX of them, every alignment: the address counters must neither wrap nor reach null
@@ -1874,6 +1939,15 @@ def gen_C03(rng, tier, changed):
     return cases
 
 
+def range_nth(lo, hi, what):
+    """next / next_back / nth(k) / nth_back(k) on the index range [lo, hi): ((lo', hi'), yielded?)"""
+    back = what == 1 or what >= 100
+    k = 0 if what < 10 else (what - 100 if back else what - 10)
+    if hi - lo <= k:
+        return ((hi, hi) if not back else (lo, lo)), False
+    return ((lo + k + 1, hi) if not back else (lo, hi - k - 1)), True
+
+
 def sim_nested_huge(r, c, axis, script):
     """expected observation of a nested script on an r x c matrix of zero-sized elements (ranges instead of lists)"""
     nvec, vlen = (r, c) if axis == 0 else (c, r)
@@ -1884,11 +1958,9 @@ def sim_nested_huge(r, c, axis, script):
         if who < 0:
             if what == 2:
                 out.append(str(hi - lo))
-            elif lo < hi:
-                if what == 0:
-                    lo += 1
-                else:
-                    hi -= 1
+                continue
+            (lo, hi), got = range_nth(lo, hi, what)
+            if got:
                 out.append(f'Some({len(inners)})')
                 inners.append([0, vlen])
             else:
@@ -1897,14 +1969,9 @@ def sim_nested_huge(r, c, axis, script):
             v = inners[who]
             if what == 2:
                 out.append(str(v[1] - v[0]))
-            elif v[0] < v[1]:
-                if what == 0:
-                    v[0] += 1
-                else:
-                    v[1] -= 1
-                out.append('Some(())')
-            else:
-                out.append('None')
+                continue
+            (v[0], v[1]), got = range_nth(v[0], v[1], what)
+            out.append('Some(())' if got else 'None')
     return '[' + ','.join(out) + ']'
 
 
